@@ -217,6 +217,15 @@ func (r *Rng) genC17() c17Case {
 		ms, err := mxj.NewMapXmlSeq([]byte(doc))
 		if err == nil {
 			c := c17Case{Kind: "seq", Map: deepCopy(map[string]interface{}(ms)).(map[string]interface{})}
+			// half of them after a trip through JSON: the sequence numbers are then float64, which elemListSeq.Less
+			// supports explicitly (seed C17-6: the comparator must not write the converted number back)
+			if r.chance(0.5) {
+				if j, jerr := mxj.Map(ms).Json(); jerr == nil {
+					if m2, jerr := mxj.NewMapJson(j); jerr == nil {
+						c.Map = map[string]interface{}(m2)
+					}
+				}
+			}
 			for i := 0; i < 4; i++ {
 				c.Calls = append(c.Calls, roCall{Fn: r.pick(roSeqFns)})
 			}
